@@ -313,7 +313,9 @@ class Server:
         # all errors from initialization process
         errors = self.secnode.errors
 
-        if not self._testonly:
+        if not self._testonly and not errors:
+            # do not start anything (poll threads, writing configured values to the hardware)
+            # when the configuration is going to be refused
             start_events = MultiEvent(default_timeout=30)
             for modname, modobj in self.secnode.modules.items():
                 # startModule must return either a timeout value or None (default 30 sec)
